@@ -192,10 +192,12 @@ check('C04', 'model_checking',
 
 check('C02', 'model_checking',
       'bounded model checking of ddl.delta_schemas on schema pairs chosen symbolically (CrossHair + z3), migrations applied directly and replayed as DDL statements',
-      'For every pair of schemas inside the bound (4 recipes x at most 1-2 extra DDL commands per side) the migration computed by the '
+      'For every pair of schemas inside the bound (4 (quick) / 7 (thorough) recipes x at most 1 extra DDL command per side out of 81, links and '
+      're-ordered bases included) the migration computed by the '
       'real diff engine, when accepted, yields a schema structurally equal to the target with no residual delta - both applied '
       'directly and rendered as DDL statements and replayed. Refused migrations are outside the statement (their share is reported).',
-      'Trusted: structural-equality oracle; std stand-in; DDL replay starts from statement nodes (no text parser). Known finding F17.',
+      'Trusted: structural-equality oracle; std stand-in; DDL replay starts from statement nodes (no text parser). Known finding F17; two '
+      'defects repaired (base removal while iterating, re-positioning of bases).',
       'DESIGN.md section 4, C02/C10')
 
 check('C10', 'model_checking',
@@ -209,7 +211,8 @@ check('C11', 'model_checking',
       'For every 3-type SDL document inside the bound (extending / link / annotation structure chosen symbolically, cyclic cases '
       'included) and every order of its declarations (all permutations of top-level declarations, body member order, module-block '
       'split) the real apply_sdl gives the same outcome as for the reference order: equal, referentially intact schemas, or rejection '
-      'in both; a cycle rejection only for really cyclic extending relations.',
+      'in both; a cycle rejection only for really cyclic extending relations. A second family gives all types one shared multi link '
+      '(overloaded where an ancestor declares it). Known finding F18.',
       'Trusted: structural-equality oracle; std stand-in; SDL given as qlast.Schema nodes (no text parser). Declarations with '
       'expressions are outside.', 'DESIGN.md section 4, C11')
 
